@@ -93,6 +93,12 @@ def exhaustive(ctx, prop, lay_spec, budget, ordered, ops):
     S_code = set(g["states"])
     st.update({"spec_states": len(S_spec), "code_states": len(S_code), "spec_edges": len(sedges),
                "code_edges": len(g["edges"])})
+    # a history that had succeeded fails when replayed on a fresh mesh object later in the same process: state outlives the
+    # mesh objects (for C10: neighbour lists handed out earlier and extended by their caller)
+    for path, exc in g.get("replay_fails", [])[:3]:
+        ctx.violation("call-failed:replay" if prop == "C02" else "nbr:answers-share-state",
+                      "replaying history %r on a fresh mesh raised %s after earlier meshes of this process had been queried (lists returned by "
+                      "neighbour_elements() are extended by their caller)" % (path, exc), {"layout": lay_spec, "maxl": maxl, "ops": list(path), "exc": exc})
     # failures of real calls
     for path, op, exc in g["fails"]:
         if prop == "C02":
@@ -333,7 +339,11 @@ def run(prop, tier, seed):
                                     {"uniform", "dorfler", "grade"}, C02_CLAUSES - {"dorfler-closure"})
         ctx.log("driver %s" % drv)
     ctx.log("traces %s" % {k: v for k, v in tr.items() if k != "per_layout"})
-    selftest = binding_selftest(ctx)
+    try:
+        selftest = binding_selftest(ctx)
+    except Exception as ex:       # (on a broken tree the self-test's own short history may not get far enough)
+        selftest = {"error": repr(ex)[:200]}
+        ctx.machinery_error("binding self-test could not run: %r" % (ex,))
     ctx.cov = {
         "states": states, "transitions": transitions,
         "traces_validated_against_impl": judged + tr["traces"],
